@@ -134,13 +134,14 @@ fn eval_plain<T: Int>(c: &Pat, obs: &mut Obs) -> Result<(), String> {
 /// bit length; 10^k - 1, 10^k, 10^k + 1 and the extreme values of every bit length
 fn length_values(sh: Shape, signed: bool, full: bool) -> Vec<Pat> {
     let w = sh.bits() as u64;
-    let wide = w > 1100 && !full;
+    let wide = w > 1100;
+    let (dense_n, bstep) = if full { (400, 13) } else { (100, 53) };
     let maxbits = if signed { w - 1 } else { w };
     let wrap = |z: &Z| Pat(z.to_le_wrapped(sh.bytes));
     let mut out = Vec::new();
     let ten = Z::from_i64(10);
     let kmax = (maxbits as f64 * 0.30103) as u32 + 1;
-    let stride = if wide { (kmax / 100).max(1) } else { 1 };
+    let stride = if wide { (kmax / dense_n).max(1) } else { 1 };
     let (mut p, mut k) = (Z::one(), 0u32);
     while p.bit_len() <= maxbits {
         if k % stride == 0 || k + 4 >= kmax {
@@ -157,7 +158,7 @@ fn length_values(sh: Shape, signed: bool, full: bool) -> Vec<Pat> {
         p = p.mul(&ten);
         k += 1;
     }
-    let bstride = if wide { 53 } else { 1 };
+    let bstride = if wide { bstep } else { 1 };
     for b in (1..=maxbits).filter(|b| b % bstride == 0 || *b + 3 >= maxbits) {
         out.push(wrap(&Z::pow2(b).add_i(-1)));
         out.push(wrap(&Z::pow2(b - 1)));
@@ -207,7 +208,7 @@ fn main() {
     runner::main(
         Property {
             id: "C12",
-            rule: "Format specifications are literals, so all 160 combinations of fill/alignment in {none, <, ^, >, *<, *^, *>, 0<, e-acute ^, #>} x '+' x '#' x '0' x width in {none, runtime} are enumerated by a generated table and applied through a wrapper Display type that forwards the same Formatter to the chosen trait of the value; every case evaluates all 8 traits x 20 specifications (specification index = base + 8k, base cycled, so 8 cases cover the whole table) with runtime widths {0, 1, len-1, len, len+1, len+2, len+3, 40, 255, uniform <= 255}. Values: structured patterns, digit vectors with many zero / small interior digits, powers of ten and multiples of large powers of ten, boundary values, negatives. Oracle: at 8/16/32/64/128 bits the same specification applied to the primitive holding the same value (byte-identical text), at every width the formatter model (pad_integral + reference numerals / two's-complement pattern / d.ddde<k>); the model is compared with the primitives at start-up (and in-line at primitive widths, where a mismatch is a harness error). NON-TRIVIAL: every case (each applies 160 flag/trait combinations, most with padding or flags). distinct = distinct (profile, job, value, spec base, width selector) by 64-bit hash. 8-bit configuration: all values x all specifications x all traits. A deterministic NUMERAL-LENGTH SWEEP per configuration adds 10^k - 1, 10^k, 10^k + 1 (both signs for signed types) for the decimal exponents k and 2^b - 1, 2^(b-1) for the bit lengths b with the plain specification of Display, Debug, Octal, LowerExp and UpperExp - all exponents and bit lengths on types up to 1088 bits, a spread selection on wider types in the quick tier, all of them in the thorough tier.",
+            rule: "Format specifications are literals, so all 160 combinations of fill/alignment in {none, <, ^, >, *<, *^, *>, 0<, e-acute ^, #>} x '+' x '#' x '0' x width in {none, runtime} are enumerated by a generated table and applied through a wrapper Display type that forwards the same Formatter to the chosen trait of the value; every case evaluates all 8 traits x 20 specifications (specification index = base + 8k, base cycled, so 8 cases cover the whole table) with runtime widths {0, 1, len-1, len, len+1, len+2, len+3, 40, 255, uniform <= 255}. Values: structured patterns, digit vectors with many zero / small interior digits, powers of ten and multiples of large powers of ten, boundary values, negatives. Oracle: at 8/16/32/64/128 bits the same specification applied to the primitive holding the same value (byte-identical text), at every width the formatter model (pad_integral + reference numerals / two's-complement pattern / d.ddde<k>); the model is compared with the primitives at start-up (and in-line at primitive widths, where a mismatch is a harness error). NON-TRIVIAL: every case (each applies 160 flag/trait combinations, most with padding or flags). distinct = distinct (profile, job, value, spec base, width selector) by 64-bit hash. 8-bit configuration: all values x all specifications x all traits. A deterministic NUMERAL-LENGTH SWEEP per configuration adds 10^k - 1, 10^k, 10^k + 1 (both signs for signed types) for the decimal exponents k and 2^b - 1, 2^(b-1) for the bit lengths b with the plain specification of Display, Debug, Octal, LowerExp and UpperExp - all exponents and bit lengths on types up to 1088 bits, a spread selection on wider types (four times denser in the thorough tier).",
             assumptions: &[
                 "digits()/from_digits()/to_bits()/from_bits() are the trusted observation channel",
                 "precision ({:.3}) and {:x?}/{:X?} are not among the listed flags and are not checked",
